@@ -578,32 +578,45 @@ def worklist(F, rep):
         # never found again, and an import cycle is walked forever
         PASS = ("clone", "to_string", "to_owned", "from", "deref", "as_str", "borrow", "as_ref", "into")
 
-        def key_root(o, depth=10):
+        def key_root(o, depth=12):
+            """-> (origin, transforms): where the key value comes from (a local, or the call site that produced
+            it) and the crate-local functions it went through on the way"""
             pl = op_place(o)
+            transforms = []
             while pl is not None and depth > 0:
                 depth -= 1
                 d = f.single_def(pl["l"])
                 if d is None:
-                    return ("local", pl["l"])
+                    return (("local", pl["l"]), tuple(transforms))
                 if d[2] == "call":
                     g = (callee_generic(d[3]) or callee_name(d[3]) or "")
+                    cn = callee_name(d[3]) or ""
                     if g.split("::")[-1].split("<")[0] in PASS and d[3]["args"]:
                         pl = op_place(d[3]["args"][0])
                         continue
-                    return ("call", callee_name(d[3]) or g)
+                    if cn in F.fns and d[3]["args"]:
+                        transforms.append(cn.split("::")[-1])
+                        pl = op_place(d[3]["args"][0])
+                        continue
+                    return (("site", d[0], g.split("::<")[0]), tuple(transforms))
                 rv = d[3]
                 if rv["r"] in ("ref", "cfd") and isinstance(rv.get("p"), dict):
                     pl = rv["p"]
                 elif rv["r"] in ("use", "cast"):
                     pl = op_place(rv["o"])
                 else:
-                    return ("local", pl["l"])
+                    return (("local", pl["l"]), tuple(transforms))
             return None
         ins_roots = {key_root(t["args"][1]) for _, t in tests
                      if (callee_generic(t) or "").split("::")[-1] == "insert" and len(t["args"]) > 1}
         con_roots = {key_root(t["args"][1]) for _, t in tests
                      if (callee_generic(t) or "").split("::")[-1] == "contains" and len(t["args"]) > 1}
-        same = (not con_roots) or (None in ins_roots | con_roots) or ins_roots <= con_roots
+        # a violation: one value used as a key under two different spellings (plain on one side, through a
+        # transforming function on the other)
+        allk = [r for r in ins_roots | con_roots if r]
+        bad_keys = sorted({(a[1] or b[1]) for a in ins_roots if a for b in allk
+                           if a[0] == b[0] and a[1] != b[1]})
+        same = not bad_keys
         rep.oblige("WORKLIST", short + ":same-key", same,
                    sample={"rule": "WORKLIST", "loop": suffix, "recorded": sorted(map(str, ins_roots)),
                            "tested": sorted(map(str, con_roots))})
@@ -612,7 +625,7 @@ def worklist(F, rep):
                             "in %s the visited set is written with a different key (%s) than the one it is tested "
                             "with: a module reached again under the tested spelling is not recognised, so an import "
                             "cycle makes the work list grow forever"
-                            % (short, ", ".join(str(r[1]) for r in ins_roots - con_roots if r)),
+                            % (short, ", ".join("/".join(k) for k in bad_keys)),
                             file=f.file, line=f.line, fn=f.path))
         rep.oblige("WORKLIST", short, ok, sample={"rule": "WORKLIST", "loop": suffix, "work": work,
                                                   "visited_test_dominates_work": ok})
